@@ -235,7 +235,9 @@ def run_session(rng, dev, budget):
             elif r < 0.85:
                 # disassemble
                 top_case = rng.random() < 0.25
-                start = (am - rng.choice([0, 1, 2, 3])) if top_case else rng.choice([0, 0x00fd, 0x8000, 0xc000, rng.randrange(0xe000)])
+                start = (am - rng.choice([0, 1, 2, 3])) if top_case else rng.choice([0, 0x00fd, 0x8000, 0xc000, rng.randrange(0xe000),
+                                                                                   0xc0fe, 0x7ffd, 0x10ff, (rng.randrange(1, 0xe0) << 8) | rng.choice([0xfd, 0xfe, 0xff]),
+                                                                                   ((1 << W) - rng.choice([1, 2, 3])) & am])
                 ops = [rng.randrange(256) for _ in range(rng.choice([1, 2, 5, 9]))]
                 cells = []
                 for op in ops:
@@ -349,6 +351,28 @@ def check_disasm(body, dev, M, start, end, table):
         text = m.group(3)
         if op <= 0xff and text.split(' ')[0] != mn:
             return 'instruction at $%x shown as %r, the opcode table says %s' % (a, text, mn), mitems
+        if op <= 0xff:
+            # the operand shown is the operand in memory (hex at the device's widths, or a label bound to it)
+            b1 = subj[((a + 1) & am) % phys]
+            b2 = subj[((a + 2) & am) % phys]
+            word = b1 + (b2 << W)
+            if mode == 'rel':
+                val = (a + 2 + (b1 - (1 << W) if b1 >> (W - 1) else b1)) & am
+            else:
+                val = word if want == 3 else b1
+            digits = AW // 4 if (want == 3 or mode == 'rel') else W // 4
+            shapes = {'imp': '', 'acc': ' A', 'imm': ' #%s', 'zpg': ' %s', 'zpx': ' %s,X', 'zpy': ' %s,Y', 'abs': ' %s',
+                      'abx': ' %s,X', 'aby': ' %s,Y', 'ind': ' (%s)', 'inx': ' (%s,X)', 'iny': ' (%s),Y', 'zpi': ' (%s)',
+                      'iax': ' (%s,X)', 'rel': ' %s'}
+            shape = shapes.get(mode)
+            if shape is not None:
+                names = ['$%0*x' % (digits, val)]
+                if mode != 'imm':
+                    names += [k for k, v in M.m._address_parser.labels.items() if v == val]
+                ok_texts = [mn + (shape % nm if '%s' in shape else shape) for nm in names]
+                if text not in ok_texts:
+                    return ('instruction at $%x shown as %r but memory holds %s (that is %r)'
+                            % (a, text, ' '.join('%x' % subj[((a + k) & am) % phys] for k in range(want)), ok_texts[0])), mitems
         cells = ','.join('%d:%d' % ((a + k) & am, subj[((a + k) & am) % phys]) for k in range(want))
         mitems.append(dict(kind='disasm-model', line=l, what=None,
                            model=('fmtdis %s %d %d %s %s' % (dev, a, want, cells, tohex(text)), tohex(l)), key=None, nontrivial=False))
